@@ -206,6 +206,9 @@ func (t *tr) evalIdent(e *ast.Ident) *val {
 		}
 	}
 	if v := t.lookup(e.Name); v != nil {
+		if v.poison {
+			t.fail("%s is a result of a call that failed (its error is not checked on this path)", e.Name)
+		}
 		return v
 	}
 	if t.p.errVars[e.Name] {
